@@ -1207,7 +1207,7 @@ def dispatch_pipeline(prop, W, cases, replay=None, assumptions=()):
     if v["fired"].get("scenarios", 0) != len(cases):
         raise Infra("DispatchTrace judged %s cases, driver ran %d" % (v["fired"].get("scenarios"), len(cases)))
     return judge(prop, W, [v], index, traces=len(cases), samples=[{"case": cases[min(5, len(cases) - 1)], "recorded_events": sample_events_at(trace, 3)}],
-                 assumptions=list(assumptions), extra_cov={"decisions": len(cases) * (len(all_targets()) if prop == "C07" else 14)})
+                 assumptions=list(assumptions), extra_cov={"decisions": len(cases) * (len(all_targets()) if prop == "C07" else 17)})
 
 
 def sample_events_at(trace, n):
